@@ -111,12 +111,13 @@ def run(ctx):
         if any(s["milk"] != s["milk_in_type"] for s in st):
             ctx.violation("C06:tie:milk-flag", f"{tag}: animal_function and 'milk' in animal_type disagree", {"kind": "tie-broken", "run": runinfo})
         spid = {n: i for i, n in enumerate(sorted(set(s["species"] for s in st)))}
-        defs = "Definition statics : list sstatic := " + clist([static_term(s, spid) for s in st]) + "."
+        sname = f"statics_{len(jobs)}"
+        defs = f"Definition {sname} : list sstatic := " + clist([static_term(s, spid) for s in st]) + "."
         terms, meta = [], []
         for m, mon in sorted(r["months"].items(), key=lambda kv: int(kv[0])):
             pre = clist([fql([p["pop"], p["sl"], p["ptot"], p["pbirth"], p["pfrac"]]) for p in mon["pre"]])
             obs = clist([fql(obs_vector(po, fw)) for po, fw in zip(mon["post"], mon["flows"])])
-            terms.append(f"check_month {TOL} {cnat(int(m))} statics {pre} {fq(mon['feed_in'])} {fq(mon['grass_in'])} {obs} "
+            terms.append(f"check_month {TOL} {cnat(int(m))} {sname} {pre} {fq(mon['feed_in'])} {fq(mon['grass_in'])} {obs} "
                          f"{fq(mon['feed_in'] - mon['feed_left'])} {fq(mon['grass_in'] - mon['grass_left'])}")
             meta.append({"run": runinfo, "month": int(m), "names": r["names"]})
             for s, fw, pr in zip(st, mon["flows"], mon["pre"]):
@@ -135,12 +136,30 @@ def run(ctx):
         jobs.append((len(jobs), defs, terms, meta))
     ctx.traces += stats.get("species_months", 0)
 
-    def evaluate(job):
-        k, defs, terms, meta = job
-        return ctx.coq_codes(f"c06_{k}", IMPORTS, terms, per_file=60, defs=defs)
+    # several runs per Coq file (each with its own statics definition), files evaluated in parallel
+    batches, cur, w = [], [], 0
+    for j in jobs:
+        cur.append(j)
+        w += len(j[2])
+        if w >= (40 if q else 120):
+            batches.append(cur)
+            cur, w = [], 0
+    if cur:
+        batches.append(cur)
+    ctx.log(f"{len(jobs)} runs traced and audited; evaluating the model on {sum(len(j[2]) for j in jobs)} cases in {len(batches)} files")
 
-    with ThreadPoolExecutor(max_workers=4) as ex:
-        outs = list(ex.map(evaluate, jobs))
+    def evaluate(kb):
+        k, batch = kb
+        codes = ctx.coq_codes(f"c06_{k}", IMPORTS, [t for j in batch for t in j[2]], per_file=100000,
+                              defs="\n".join(j[1] for j in batch))
+        out, i = [], 0
+        for j in batch:
+            out.append(codes[i:i + len(j[2])])
+            i += len(j[2])
+        return out
+
+    with ThreadPoolExecutor(max_workers=lib.NCPU) as ex:
+        outs = [o for ob in ex.map(evaluate, enumerate(batches)) for o in ob]
     nbad = ncase = 0
     for (k, defs, terms, meta), codes in zip(jobs, outs):
         for code, mt in zip(codes, meta):
